@@ -504,6 +504,15 @@ def addPrefixRes : Nat → Str → Res → Except Err Res
 def addPrefixTable (fuel : Nat) (pfx : Str) (t : Table) : Except Err Table :=
   prefixLoop (addPrefixRes fuel pfx) t.rs.length t 0
 
+/-- `PlainResource.freeze`: the empty path becomes `/` -/
+def freezeRes : Res → Res
+  | .plain p rts => .plain (if p.isEmpty then [SL] else p) rts
+  | r => r
+
+/-- `UrlDispatcher.freeze` (called through `Application.pre_freeze` when an application is
+mounted, and through `Application.freeze` before serving) -/
+def Table.freeze (t : Table) : Table := .mk (t.rs.map freezeRes) t.index t.matched
+
 /-- `Application.add_subapp(prefix, subapp)`; `q` = `_requote_path(prefix.rstrip("/"))` -/
 def addSubapp (fuel : Nat) (t : Table) (pfx q : Str) (s : Table) : Except Err Table :=
   let p := rstripSlash pfx
@@ -511,10 +520,11 @@ def addSubapp (fuel : Nat) (t : Table) (pfx q : Str) (s : Table) : Except Err Ta
   else if p.head? != some SL then .error .assertion
   else do
     let s' ← addPrefixTable fuel p s
-    pure (t.register (.sub q s'))
+    pure (t.register (.sub q s'.freeze))
 
-/-- `Application.add_domain(domain, subapp)` (`rule` already validated: oracle) -/
-def addDomain (t : Table) (rule : Rule) (s : Table) : Table := t.register (.dom rule s)
+/-- `Application.add_domain(domain, subapp)` (`rule` already validated: oracle); the sub-application
+is pre-frozen -/
+def addDomain (t : Table) (rule : Rule) (s : Table) : Table := t.register (.dom rule s.freeze)
 
 /-! ## url_for -/
 
